@@ -82,6 +82,20 @@ impl Ctx {
             let p2: PortableRegistry = r2.into();
             self.put(&json!({"ev": "Perm", "ids1": self.ids, "types1": proj::registry(Mode::Plain, &p), "ids2": ids2, "types2": proj::registry(Mode::Plain, &p2)}));
         }
+        // C02 on real types: the extracted compile-time graph vs the registry built from it
+        let fe = crate::extract::faithful_event(&self.metas);
+        self.put(&fe);
+        // C10 on registries of real types: retain with a few filters
+        for (k, keep) in [(0usize, (0..p.types.len() as u32).filter(|i| i % 3 == 0).collect::<Vec<u32>>()),
+                          (1, vec![*self.ids.last().unwrap_or(&0)]),
+                          (2, self.ids.iter().cloned().take(2).collect())] {
+            let _ = k;
+            let mut q = p.clone();
+            let old = proj::registry(Mode::Plain, &q);
+            let ks = keep.clone();
+            let map = q.retain(|i| ks.contains(&i));
+            self.put(&json!({"ev": "Retain", "old": old, "keep": keep, "map": map.iter().map(|(a, b)| json!([a, b])).collect::<Vec<_>>(), "new": proj::registry(Mode::Plain, &q)}));
+        }
         self.reg = Some(p);
         let n = self.metas.len();
         let h = |m: &MetaType| {
